@@ -6,6 +6,13 @@ import os
 VERIF = os.path.dirname(os.path.dirname(os.path.abspath(__file__)))
 
 CLAIMED = {
+    "C13": dict(
+        category="translation_validation",
+        technique="z3 symbolic execution of all configured contracts inside one symbolic group (slot of each transaction, group size and all fields are solver variables); real init_tealer_from_config + run_detectors validated in both directions; CrossHair on the relative-index relation",
+        text="For every configuration of 1-3 transactions over a pool of contracts (all placements of absolute indices, offsets written on either side, types) the real group pipeline is run; z3 decides whether a group consistent with the configuration is approved by every configured contract while a transaction carries the dangerous value (=> must be reported, model replayed concretely) and the direct-check reading decides when a transaction must be cleared (own contract or a member reading it through the configured index/offset).",
+        note="group-size-check is not group-aware in tealer and is outside; derived (transitive) offsets are not used for the cleared direction",
+        design_ref="DESIGN.md section 4 C13",
+    ),
     "C10": dict(
         category="translation_validation",
         technique="CrossHair/z3 on index classification and key matching for symbolic indices/offsets; z3 validation of gtxn/absolute/relative contexts against all groups (16 slots symbolic)",
@@ -92,7 +99,7 @@ CLAIMED = {
     ),
 }
 
-NOT_YET = {'C11': 'check under construction in this build round (see DESIGN.md section 9); not claimed yet', 'C13': 'check under construction in this build round (see DESIGN.md section 9); not claimed yet', 'C14': 'check under construction in this build round (see DESIGN.md section 9); not claimed yet', 'C15': 'check under construction in this build round (see DESIGN.md section 9); not claimed yet', 'C16': 'check under construction in this build round (see DESIGN.md section 9); not claimed yet', 'C17': 'check under construction in this build round (see DESIGN.md section 9); not claimed yet', 'C19': 'check under construction in this build round (see DESIGN.md section 9); not claimed yet', 'C18': 'relates DOT/JSON text renderings to internal objects: no run-time input, constant or schedule for a solver to range over; int->str/re/file output are beyond CrossHair (measured); reading files back would be output testing, another technique'}
+NOT_YET = {'C11': 'check under construction in this build round (see DESIGN.md section 9); not claimed yet', 'C14': 'check under construction in this build round (see DESIGN.md section 9); not claimed yet', 'C15': 'check under construction in this build round (see DESIGN.md section 9); not claimed yet', 'C16': 'check under construction in this build round (see DESIGN.md section 9); not claimed yet', 'C17': 'check under construction in this build round (see DESIGN.md section 9); not claimed yet', 'C19': 'check under construction in this build round (see DESIGN.md section 9); not claimed yet', 'C18': 'relates DOT/JSON text renderings to internal objects: no run-time input, constant or schedule for a solver to range over; int->str/re/file output are beyond CrossHair (measured); reading files back would be output testing, another technique'}
 
 
 def main() -> None:
